@@ -14,7 +14,7 @@ LEVEL = "exploration"
 NUMBA_THREADS = 16
 MAX_JOBS = 4
 CLAIM = {
-    "text": "Exploration by runtime monitoring under schedule stress: every parallel=True kernel named by the property (extract_tim, extract_bpass, mask_channels, dedisperse, subband, remove_zerodm, invert_freq, compute_online_moments(_basic), downsample_1d/2d_mean_parallel) is driven directly on exact-arithmetic inputs of shapes from (1 channel, 1 sample) to > 10^5 iterations, red-zone framed, under threads {1,2,3,4,8,16} (thorough: 1..16) x parallel chunk sizes {0,1,2,3,7,64} x R repetitions, with 4 worker processes oversubscribing the 16 cores; all outputs must be bit-identical to each other and to a numpy evaluation of the kernel's definition (and to .py_func on small shapes), canaries must be intact, and a deliberately racy probe kernel run under exactly the same configurations must have produced wrong answers, otherwise the run is inconclusive.",
+    "text": "Exploration by runtime monitoring under schedule stress: every parallel=True kernel named by the property (extract_tim, extract_bpass, mask_channels, dedisperse, subband, remove_zerodm, invert_freq, compute_online_moments(_basic), downsample_1d/2d_mean_parallel) is driven directly on exact-arithmetic inputs of shapes from (1 channel, 1 sample) to > 10^5 iterations, red-zone framed, under threads {1,2,3,4,8,16} (thorough: 1..16) x parallel chunk sizes {0,1,2,3,7,64} x R repetitions, with 4 worker processes oversubscribing the 16 cores and a second pass pinned to two cores (16 OpenMP threads time-slicing); all outputs must be bit-identical to each other and to a numpy evaluation of the kernel's definition (and to .py_func on small shapes), canaries must be intact, and a deliberately racy probe kernel run under exactly the same configurations must have produced wrong answers, otherwise the run is inconclusive.",
     "design_ref": "DESIGN.md section 3 (C19), 2.2, 2.3",
     "note": "Schedules are sampled, not enumerated: sensitivity is reported as the racy probe's failure count under the same (threads, chunk, repetition) set. Moment kernels are compared bit-for-bit across schedules and with numpy two-pass moments within float32 tolerance (their fastmath float32 recurrences are not bit-comparable with a Python evaluation).",
     "technique": "runtime monitoring: schedule stress (threads x chunk sizes x repetitions, oversubscription) with bit-exact differential oracle, red-zone canaries and a racy sensitivity probe",
@@ -28,7 +28,7 @@ SHAPES = {"degenerate": (1, 1), "tiny": (3, 5), "odd": (37, 13), "large": (20011
 
 
 def REQUIRED(tier):
-    return [f"kernel:{k}" for k in KERNELS] + ["configs_run", "probe_runs", "probe_wrong", "canary_audits", "pyfunc_checks", "shape:large", "shape:degenerate"]
+    return [f"kernel:{k}" for k in KERNELS] + ["configs_run", "probe_runs", "probe_wrong", "canary_audits", "pyfunc_checks", "shape:large", "shape:degenerate", "affinity_pinned_cases"]
 
 
 def EXTRA_COVERAGE(tier, tot):
@@ -49,6 +49,12 @@ def cases(tier, seed):
                 yield {"kernel": kern, "shape": shape, "dtype": dt, "reps": reps, "seed": int(seed) * 1009 + k, "tier": tier}
     for i in range(4 if tier == "quick" else 16):
         yield {"kernel": "probe", "reps": reps, "seed": int(seed) * 1009 + 5000 + i, "tier": tier}
+    # the same kernels with the worker pinned to two cores: 16 OpenMP threads time-slice, preemption inside the parallel region
+    for kern in KERNELS:
+        for shape in (("odd", "large") if tier == "quick" else tuple(SHAPES)):
+            k += 1
+            yield {"kernel": kern, "shape": shape, "dtype": "float32" if k % 2 else "uint8", "reps": max(1, reps // 3), "seed": int(seed) * 1009 + k, "tier": tier, "affinity": 2}
+    yield {"kernel": "probe", "reps": reps, "seed": int(seed) * 1009 + 7000, "tier": tier, "affinity": 2}
 
 
 def _build(kern, ns, nch, dt, rng, fr):
@@ -138,6 +144,19 @@ def _build(kern, ns, nch, dt, rng, fr):
 
 
 def run_case(case, ctx):
+    if case.get("affinity"):
+        allowed = sorted(os.sched_getaffinity(0))
+        pick = set(allowed[(case["seed"] % max(1, len(allowed) - 1)):][: case["affinity"]]) or set(allowed[:2])
+        os.sched_setaffinity(0, pick)
+        ctx.count("affinity_pinned_cases")
+        try:
+            return _run_case(case, ctx)
+        finally:
+            os.sched_setaffinity(0, set(allowed))
+    return _run_case(case, ctx)
+
+
+def _run_case(case, ctx):
     import numba
 
     rng = np.random.default_rng([case["seed"], 19])
